@@ -87,6 +87,10 @@ def run(prop, tier, seed):
         mw = vlib.tlc_mc(d, "KeeperImplMC.tla", "KeeperImplWedge.cfg", timeout=1200)
         v.cov["impl_states"], v.cov["impl_transitions"] = mi["distinct"], mi["states"]
         v.cov["impl_known_wedge_reachable_in_model"] = bool(mw["violated"])
+        mp = vlib.tlc_mc(d, "KeeperImplMC.tla", "KeeperImplPopOld.cfg", timeout=1200)
+        v.cov["impl_pop_race_reachable_with_unchecked_pop"] = bool(mp["violated"])
+        if not mp["violated"]:
+            raise vlib.Machinery("KeeperImpl with PopRule=unchecked no longer shows the pop-on-emptied-queue schedule: the model has become vacuous about it")
         log("MC KeeperImpl: %d distinct states, no unknown wedge; known wedge reachable in the model: %s" % (mi["distinct"], bool(mw["violated"])))
     n = 500 if tier == "quick" else 5000
     behs = []
